@@ -23,7 +23,10 @@ def tree_with_leaf_filters(g, rng, depth, ops, leaf_mode=None):
         return lf
     op = rng.choice([o for o in ops if o != "filt_leaf"])
     rec = lambda: tree_with_leaf_filters(g, rng, depth - 1, ops, leaf_mode)
-    if op in ("or", "and", "sub"):
+    if op == "sub":
+        # subtractors may be arbitrary (nested, overlapping, duplicated) inside the exact domain
+        return {"op": op, "l": rec(), "r": tree_with_leaf_filters(g, rng, depth - 1, ops, None)}
+    if op in ("or", "and"):
         return {"op": op, "l": rec(), "r": rec()}
     if op in ("inv", "flatten"):
         return {"op": op, "s": rec()}
@@ -98,6 +101,18 @@ def gen_nested_windows(g, rng, tier, n):
 MASK_OPS = ["inv", "flatten", "and_mask", "inv", "flatten"]
 
 
+def loose_mask(g, rng, depth):
+    """A mask timeline that is NOT canonical by itself: a union of masks, or an all-mask
+    intersection with such a union as an operand (it emits from its first operand).  Only used
+    directly under ~ / flatten, which must canonicalise it."""
+    u = {"op": "or", "l": mask_tree(g, rng, depth - 1), "r": mask_tree(g, rng, depth - 1)}
+    r = rng.random()
+    if r < 0.4:
+        return u
+    m = mask_tree(g, rng, depth - 1)
+    return {"op": "and", "l": u, "r": m} if r < 0.8 else {"op": "and", "l": m, "r": u}
+
+
 def mask_tree(g, rng, depth):
     """~, flatten and & over masks, on arbitrary stored timelines."""
     r = rng.random()
@@ -107,8 +122,10 @@ def mask_tree(g, rng, depth):
     op = rng.choice(MASK_OPS)
     if op == "and_mask":
         return {"op": "and", "l": mask_tree(g, rng, depth - 1), "r": mask_tree(g, rng, depth - 1)}
-    if r < 0.5:
+    if r < 0.4:
         return {"op": op, "s": mask_tree(g, rng, depth - 1)}
+    if r < 0.6:
+        return {"op": op, "s": loose_mask(g, rng, depth)}
     inner = g.tree(rng.choice([0, 1, 2]), ["or", "sub", "and"])
     return {"op": op, "s": inner}
 
